@@ -311,6 +311,126 @@ let gen_pkg ~seed ~n emit =
     one be v2 cols units (Z.of_int (rand_int r (units + 2))) lens offs szs
   )
 
+(* ---- whole packages: both indexes populated, compilation units and type units (c17.dwp) ----
+   The generator builds the units, the package sections (contributions in shuffled order with gaps), and the two
+   indexes; expected = model (IndexRd on the index bytes) + the generator's knowledge of which unit was packaged
+   where. The harness prints what find_cu / find_tu / cu_sections / tu_sections really return and parse. *)
+let uleb (v : Z.t) : int list = ints_of_bytes (LebSpec.enc_uleb (nz v))
+type punit = { is_tu : bool; uid : Z.t; uname : int list; parts : (int * int list) array (* per kind code *) }
+
+let sect_code ~v2 kind = match v2, kind with
+  | _, 1 -> 1 | true, 9 -> 2 | _, 0 -> 3 | _, 2 -> 4 | true, 3 -> 5 | false, 4 -> 5 | _, 8 -> 6
+  | true, 5 -> 7 | true, 6 -> 8 | false, 6 -> 7 | false, 7 -> 8 | _ -> 0
+
+let mk_unit r be ~v2 ~is_tu ~(uid : Z.t) ~(ord : int) : punit =
+  let name = List.init (1 + rand_int r 5) (fun _ -> 0x61 + rand_int r 26) @ [0x30 + ord] in
+  let extra = [2] @ uleb (Z.of_int (0x100 + ord * 3 + (if is_tu then 1 else 0))) @ [0; 0; 0] in
+  let abbrev =
+    (if is_tu then [1; 0x41; 0; 0x03; 0x08; 0; 0]
+     else if v2 then [1; 0x11; 0; 0x03; 0x08; 0xb1; 0x42; 0x07; 0; 0]
+     else [1; 0x11; 0; 0x03; 0x08; 0; 0]) @ extra @ [0] in
+  let die = [1] @ name @ [0] @ (if (not is_tu) && v2 then enc be 8 uid else []) in
+  let body =
+    if v2 then
+      enc be 2 (Z.of_int 4) @ enc be 4 Z.zero @ [8]
+      @ (if is_tu then enc be 8 uid @ enc be 4 (Z.of_int 23) else []) @ die
+    else
+      enc be 2 (Z.of_int 5) @ [if is_tu then 6 else 5] @ [8] @ enc be 4 Z.zero @ enc be 8 uid
+      @ (if is_tu then enc be 4 (Z.of_int 24) else []) @ die in
+  let unit_bytes = enc be 4 (Z.of_int (List.length body)) @ body in
+  let blob k = List.init (2 + rand_int r 9) (fun i -> (ord * 37 + k * 11 + i * 5 + (if is_tu then 128 else 0)) land 255) in
+  let parts = Array.init 10 (fun k ->
+    (k, if k = 0 then abbrev else if k = 1 && (not is_tu || not v2) then unit_bytes
+        else if k = 9 && is_tu && v2 then unit_bytes else blob k)) in
+  { is_tu; uid; uname = name; parts }
+
+let facts_s (u : punit) ~v2 =
+  Printf.sprintf "U%d.%s.%s" (if u.is_tu then (if v2 then 2 else 6) else (if v2 then 1 else 5)) (Z.to_string u.uid) (hex_of_ints u.uname)
+
+let dwp_case emit ~seed be ~v2 (cus : punit list) (tus : punit list) ~cu_cols ~tu_cols ~cu_slots ~tu_slots (extra_ids : Z.t list) =
+  let r = mk_rng (seed + 17) in
+  (* package sections: contributions of all units in shuffled order, with gaps *)
+  let bufs = Array.make 10 [] in
+  let where : (int * int * int, punit) Hashtbl.t = Hashtbl.create 16 in   (* (kind, off, size) -> unit *)
+  let contrib : (punit * (int * int) array) list ref = ref [] in
+  let all = List.map (fun u -> (rand_int r 1000, u)) (cus @ tus) |> List.sort compare |> List.map snd in
+  List.iter (fun u ->
+    let cols = if u.is_tu then tu_cols else cu_cols in
+    let pos = Array.make 10 (0, 0) in
+    List.iter (fun k ->
+      let gap = List.init (rand_int r 4) (fun _ -> 0xee) in
+      let bytes = snd u.parts.(k) in
+      let off = List.length bufs.(k) + List.length gap in
+      bufs.(k) <- bufs.(k) @ gap @ bytes;
+      pos.(k) <- (off, List.length bytes);
+      if k = 1 || k = 9 then Hashtbl.replace where (k, off, List.length bytes) u) cols;
+    contrib := (u, pos) :: !contrib) all;
+  let index_of (us : punit list) cols slots =
+    let n = List.length us in
+    let rows = List.mapi (fun i u -> (u, i + 1)) us in
+    let tbl = match build_table slots (List.map (fun (u, row) -> (u.uid, Z.of_int row)) rows) with
+      | Some t -> t | None -> failwith "dwp: table full" in
+    let offs = List.concat_map (fun u -> let pos = List.assq u !contrib in List.map (fun k -> Z.of_int (fst pos.(k))) cols) us in
+    let szs = List.concat_map (fun u -> let pos = List.assq u !contrib in List.map (fun k -> Z.of_int (snd pos.(k))) cols) us in
+    mk_index be ~v2 ~pad:0 ~cols:(List.map (sect_code ~v2) cols) ~unit_count:(Z.of_int n) ~slots:tbl ~offsets:offs ~sizes:szs in
+  let cu_l = index_of cus cu_cols cu_slots and tu_l = index_of tus tu_cols tu_slots in
+  let ids = List.sort_uniq Z.compare (List.map (fun u -> u.uid) (cus @ tus) @ extra_ids) in
+  let maxrow = max (List.length cus) (List.length tus) + 1 in
+  let rows = List.init (maxrow + 1) (fun i -> i) in
+  let lens = Array.map List.length bufs in
+  let case = Printf.sprintf "c17.dwp %d %s %s %s %d%s %d" (bflag be) (hex_of_ints cu_l) (hex_of_ints tu_l)
+      (cat " " (Array.to_list (Array.map hex_of_ints bufs))) (List.length ids)
+      (cat "" (List.map (fun z -> " " ^ Z.to_string z) ids)) maxrow in
+  both emit case (fun dbg ->
+    guard (fun () ->
+      let parse l = match I.index_parse dbg be (bytes_of_ints l) with
+        | Res.Ok ix -> ix | Res.Panic -> raise MPanic | _ -> failwith "dwp: generated index does not parse" in
+      let cix = parse cu_l and tix = parse tu_l in
+      let by_row ix row =
+        match I.pkg_sections dbg be ix (ni row) (fun k -> ni lens.(kind_code k)) with
+        | Res.Ok l ->
+            let units = List.filter_map (fun ((k, o), z) ->
+              let kc = kind_code k in
+              if (kc = 1 || kc = 9) && int_of_n z > 0 then
+                Some (match Hashtbl.find_opt where (kc, int_of_n o, int_of_n z) with Some u -> facts_s u ~v2 | None -> "U?")
+              else None)
+              (List.sort (fun ((a, _), _) ((b, _), _) -> compare (kind_code a) (kind_code b)) l) in
+            cat " " (List.map (fun ((k, o), z) -> Printf.sprintf "%d.%s.%s" (kind_code k) (sn o) (sn z)) l)
+            ^ " " ^ (if units = [] then "-" else cat "+" units)
+        | Res.Err e -> "E:" ^ ename e
+        | Res.Panic -> raise MPanic | Res.OutOfFuel -> raise MFuel in
+      let by_id ix id = match I.index_find dbg be ix (nz id) with
+        | Res.Ok None -> "none" | Res.Ok (Some row) -> by_row ix (int_of_n row)
+        | Res.Err e -> "E:" ^ ename e | Res.Panic -> raise MPanic | Res.OutOfFuel -> raise MFuel in
+      cat " | " (List.map (fun id -> Printf.sprintf "%s:C=%s;T=%s" (Z.to_string id) (by_id cix id) (by_id tix id)) ids
+                 @ List.map (fun row -> Printf.sprintf "R%d:C=%s;T=%s" row (by_row cix row) (by_row tix row)) rows)))
+
+let gen_dwp ~seed ~n emit =
+  let one r =
+    let be = rand_bool r and v2 = rand_bool r in
+    let ncu = 1 + rand_int r 3 and ntu = 1 + rand_int r 4 in
+    let lo = Z.of_int (rand_int r 4) in
+    (* ids colliding in their low bits; sometimes a TU signature equal to a CU's dwo id *)
+    let fresh used =
+      let rec go k = let id = Z.logand (Z.add lo (Z.add (Z.shift_left (Z.of_int (rand_int r 6)) 32) (Z.of_int (8 * rand_int r 4)))) u64max in
+        if Z.sign id = 0 || List.exists (Z.equal id) used then (if k > 50 then Z.add (rand_z64 r) Z.one else go (k + 1)) else id in go 0 in
+    let cu_ids = List.fold_left (fun acc _ -> fresh acc :: acc) [] (List.init ncu (fun i -> i)) in
+    let tu_ids = List.fold_left (fun acc i ->
+        (if i = 0 && rand_int r 3 = 0 then List.hd cu_ids else fresh (acc @ cu_ids)) :: acc) [] (List.init ntu (fun i -> i)) in
+    let tu_ids = List.sort_uniq Z.compare tu_ids in
+    let cus = List.mapi (fun i id -> mk_unit r be ~v2 ~is_tu:false ~uid:id ~ord:i) cu_ids in
+    let tus = List.mapi (fun i id -> mk_unit r be ~v2 ~is_tu:true ~uid:id ~ord:(i + 4)) tu_ids in
+    let opt l = List.filter (fun _ -> rand_int r 4 > 0) l in
+    let cu_cols = if v2 then [1; 0] @ opt [2; 3; 8; 5; 6] else [1; 0] @ opt [2; 4; 8; 6; 7] in
+    let tu_cols = if v2 then [9; 0] @ opt [2; 8] else [1; 0] @ opt [2; 8] in
+    let cu_cols = if rand_bool r then List.rev cu_cols else cu_cols in
+    let pow2_above k = let rec go p = if p > k then p else go (2 * p) in go 1 in
+    let cu_slots = pow2_above ncu * (1 lsl rand_int r 2) and tu_slots = pow2_above (List.length tus) * (1 lsl rand_int r 2) in
+    let absent = List.concat_map (fun id -> [Z.logxor id (p2 32); Z.logand (Z.add id (Z.of_int 8)) u64max]) (truncate_list (cu_ids @ tu_ids) 3) @ [Z.zero] in
+    dwp_case emit ~seed:(rand_int r 1000000) be ~v2 cus tus ~cu_cols ~tu_cols ~cu_slots ~tu_slots absent in
+  (* 96 packages even when n = 0: (ncu, ntu, version, byte order) are drawn per package *)
+  for_random ~seed:(seed * 7919 + 13) ~n:(96 + n) one
+
 (* ================================================================== .debug_names *)
 
 let show_opt pr = function None -> "-" | Some v -> pr v
@@ -817,6 +937,8 @@ let () =
     gen_findzero;
   register "c17.pkg" ~doc:"DwarfPackage::cu_sections contribution ranges (Section::dwp_range) for every column subset and row, random out-of-range contributions"
     gen_pkg;
+  register "c17.dwp" ~doc:"whole generated packages: 1..3 compilation units and 1..4 type units (v2 with .debug_types.dwo, v5 with type units in .debug_info.dwo), both indexes populated with different column sets, ids colliding in their low bits (sometimes a signature equal to a dwo id), overlapping row numbers with different contributions, TU rows beyond the CU count; find_cu / find_tu / cu_sections / tu_sections for every id and row: contributions and the parsed unit (type, id, name)"
+    gen_dwp;
   register "c17.names" ~doc:"debug_names: header, NameIndex::new layout, CU/TU lists, abbreviations (every 1-2 byte table), bucket and hash iteration (bucket counts 0/1/n, duplicate hashes), entry pool with parent chains and type units; ill-formed buckets; mutations"
     gen_names;
   register "c17.djb" ~doc:"case_folding_djb_hash on ASCII strings: all strings of length <= 2, 30^3 grid around the letter boundaries, random"
